@@ -170,6 +170,91 @@ theorem equalDepth_total (d : Nat) : ∀ (a b : Val), a.height ≤ d → ∃ r, 
           have := mem_heightPairs (k := e.1) (v := e.2) (by simpa using he)
           simp only [Val.height] at h; omega))
 
+mutual
+/-- no dict anywhere inside -/
+def Val.dictFree : Val → Bool
+  | .str _ => true
+  | .bytes _ => true
+  | .tuple xs => Val.dictFreeList xs
+  | .list xs => Val.dictFreeList xs
+  | .dict _ => false
+def Val.dictFreeList : List Val → Bool
+  | [] => true
+  | x :: xs => x.dictFree && Val.dictFreeList xs
+end
+
+theorem dictFreeList_mem {x : Val} {xs : List Val} (h : Val.dictFreeList xs = true) (hx : x ∈ xs) : x.dictFree = true := by
+  induction xs with
+  | nil => simp at hx
+  | cons y ys ih =>
+    simp only [Val.dictFreeList, Bool.and_eq_true] at h
+    rcases List.mem_cons.mp hx with rfl | hx
+    · exact h.1
+    · exact ih h.2 hx
+
+theorem beqList_length {xs ys : List Val} (h : Val.beqList xs ys = true) : xs.length = ys.length := by
+  induction xs generalizing ys with
+  | nil => cases ys <;> simp_all [Val.beqList]
+  | cons x xs ih =>
+    cases ys with
+    | nil => simp [Val.beqList] at h
+    | cons y ys =>
+      simp only [Val.beqList, Bool.and_eq_true] at h
+      simp [ih h.2]
+
+theorem allEqWith_beq (f : Val → Val → Except Err Bool) (xs : List Val) : ∀ ys : List Val,
+    xs.length = ys.length → (∀ x ∈ xs, ∀ y, f x y = .ok (x.beq y)) → allEqWith f xs ys = .ok (Val.beqList xs ys) := by
+  induction xs with
+  | nil => intro ys hl _; cases ys <;> simp_all [allEqWith, Val.beqList]
+  | cons x xs ih =>
+    intro ys hl h
+    cases ys with
+    | nil => simp at hl
+    | cons y ys =>
+      have hxy := h x (by simp) y
+      simp only [allEqWith, hxy, Val.beqList]
+      cases hb : x.beq y with
+      | false => simp
+      | true =>
+        simp only [Bool.true_and]
+        exact ih ys (by simpa using hl) (fun x' hx' y' => h x' (by simp [hx']) y')
+
+/-- on values without dicts, `EqualDepth` within the depth limit is structural equality -/
+theorem equalDepth_dictFree (d : Nat) : ∀ (a b : Val), a.dictFree = true → a.height ≤ d →
+    equalDepth d a b = .ok (a.beq b) := by
+  induction d with
+  | zero => intro a _ _ h; have := a.height_pos; omega
+  | succ d ih =>
+    intro a b hf hh
+    cases a with
+    | str s => cases b <;> simp [equalDepth, Val.beq]
+    | bytes s => cases b <;> simp [equalDepth, Val.beq]
+    | dict kvs => simp [Val.dictFree] at hf
+    | tuple xs =>
+      cases b <;> simp only [equalDepth, Val.beq]
+      rename_i ys
+      split
+      · rename_i hne
+        cases hb : Val.beqList xs ys with
+        | false => rfl
+        | true => exact absurd (beqList_length hb) hne
+      · rename_i he
+        exact allEqWith_beq _ xs ys (by simpa using he) (fun x hx y => ih x y
+          (dictFreeList_mem (by simpa [Val.dictFree] using hf) hx)
+          (by have := mem_heightList hx; simp only [Val.height] at hh; omega))
+    | list xs =>
+      cases b <;> simp only [equalDepth, Val.beq]
+      rename_i ys
+      split
+      · rename_i hne
+        cases hb : Val.beqList xs ys with
+        | false => rfl
+        | true => exact absurd (beqList_length hb) hne
+      · rename_i he
+        exact allEqWith_beq _ xs ys (by simpa using he) (fun x hx y => ih x y
+          (dictFreeList_mem (by simpa [Val.dictFree] using hf) hx)
+          (by have := mem_heightList hx; simp only [Val.height] at hh; omega))
+
 /-- the elements of a sequence are less deep than the sequence, except that indexing a string or bytes gives
 a string or bytes again -/
 theorem elems_height {a : Val} {xs : List Val} (h : a.elems? = some xs) {x : Val} (hx : x ∈ xs) :
